@@ -226,9 +226,10 @@ RefClosed == RefClosedSeq(Log)
 \* getOrCreate puts a new series in memory, with lastTs = MinInt64, before anything is logged): a
 \* truncation between Append and Commit removes the series with deleted[ref] = the current segment;
 \* the commit then logs the sample (and, for a new series, its series record) into a *later* segment,
-\* so the next checkpoints drop the series record while the sample stays.
+\* so the next checkpoints drop the series record while the sample stays.  A pending *exemplar* is
+\* affected in the same way (found by the thorough simulation, reproduced on the real DB).
 LateSeries == \E i \in 1..Len(hist) : hist[i].a = "Truncate" /\ hist[i].gc > 0
-              /\ \E j \in 1..(i - 1) : hist[j].a = "Append" /\ hist[j].res = "ok"
+              /\ \E j \in 1..(i - 1) : (hist[j].a = "AppendEx" \/ (hist[j].a = "Append" /\ hist[j].res = "ok"))
                    /\ ~\E c \in (j + 1)..(i - 1) : hist[c].a \in {"Commit", "Rollback"}
 \* (KF-C48-1, exemplars kept by time only, and KF-C48-3, duplicate series records kept by segment only while
 \* their samples are kept by time, are repaired: wlog.Checkpoint drops an exemplar with its series record and
